@@ -441,7 +441,9 @@ class Interp:
         seqlen = None
         if it is not None:
             seqlen = models.symbolic_len(self, it)
-        # init
+        # init (definitional lemmas are available at index 0 as well)
+        for lem in spec.get('lemmas', []):
+            self.assume(self.spec_bool(lem, inv_env(z3.IntVal(0))))
         for j, inv in enumerate(spec.get('inv', [])):
             self.oblige('%s.init[%d]' % (base, j), self.spec_bool(inv, inv_env(z3.IntVal(0))),
                         'inv', {'text': inv})
@@ -470,6 +472,7 @@ class Interp:
             # instances of spec-function definitions (always true); assumed, never obligations
             self.assume(self.spec_bool(lem, inv_env(i)))
         which = self.path.choose(2, 'loop#%d' % k)
+        self.ghost['loop_index'] = i
         if which == 0:
             # one arbitrary iteration
             if it is not None:
@@ -495,6 +498,7 @@ class Interp:
                 self.oblige('%s.dec' % base, z3.And(var0.t >= 0, var1.t < var0.t), 'inv')
             raise PathEnd()
         # exit
+        self.ghost['loop_index'] = None
         if it is not None:
             self.assume(i == seqlen)
         else:
